@@ -47,7 +47,10 @@ STRACE = ("strace -f -o {d}/strace.log -P {k}/status.tag.tmp -P {k}/status.tag -
 # ---------------------------------------------------------------------------------------------------------------------
 # running the driver
 
-def run_driver(runs, name, bindir, *, strace=None, timeout=240, workers=6):
+PANICS = []
+
+
+def run_driver(runs, name, bindir, *, strace=None, timeout=240, workers=6, _retry=False):
     d, exe = rig.prepare(name, bindir)
     os.makedirs(os.path.join(d, "varlog"), exist_ok=True)
     sp = os.path.join(d, "script.json")
@@ -70,8 +73,15 @@ def run_driver(runs, name, bindir, *, strace=None, timeout=240, workers=6):
     ev = util.read_ndjson(out) if os.path.exists(out) else []
     if p.returncode != 0 or not ev or ev[-1].get("e") != "Done":
         raise util.ToolError("provision driver %s failed rc=%s (%d events):\n%s" % (name, p.returncode, len(ev), p.stdout[-3000:]))
-    if any(e.get("e") == "Panic" for e in ev):
-        raise util.ToolError("panic in provision driver run %s: %s" % (name, [e for e in ev if e.get("e") == "Panic"][:2]))
+    panics = [e for e in ev if e.get("e") == "Panic"]
+    if panics:
+        # a panic outside the provisioning code (e.g. the logger) is not this property's business: note it, run the
+        # batch once more; a panic in the code under test or a second one is a tool error (C13 owns panics)
+        PANICS.append({"location": panics[0].get("location"), "message": str(panics[0].get("message"))[:200]})
+        own = any("provision" in str(e.get("location")) or "vdrv" in str(e.get("location")) for e in panics)
+        if own or _retry:
+            raise util.ToolError("panic in provision driver run %s: %s" % (name, panics[:2]))
+        return run_driver(runs, name, bindir, strace=strace, timeout=timeout, workers=workers, _retry=True)
     by = {}
     for e in ev:
         if "run" in e and e["e"] != "Done":
@@ -469,6 +479,8 @@ def run(c):
                                           "decided against the statement by ProvisionTrace"}
     if desyncs:
         c.extra["desync"] = {"runs": len(desyncs), "first": [list(d) for d in desyncs[:5]]}
+    if PANICS:
+        c.extra["panics_outside_provisioning"] = PANICS[:5]
     c.extra["replays"] = {"spec_behaviours": len(hists), "counterexample_schedules": len([x for x in cands if x[0] not in FILE_TAGS]),
                           "driver_random": nauto, "file_step_races": len(races),
                           "runs_conforming_to_spec": len(hists) + len([x for x in cands if x[0] not in FILE_TAGS]) - len(drift)}
